@@ -362,3 +362,4 @@ K('C01', 'P2.handle_breaches_shared_locator', 'teos', _w + 'c01_p2_handle_breach
 K('C06', 'P4.isolation_shared_locator', 'teos', _w + 'c01_p2_handle_breaches_shared_locator', 'users sharing a locator hold independent appointments when the breach arrives: own blob, own tracker, own fate')
 PROPS['C01']['outside'] = PROPS['C01']['outside'].replace('the block-connection path Watcher::filtered_block_connected -> get_breaches -> handle_breaches is not run under Kani (its loop over breaches runs out of memory): only its lock/call order is checked (C10.M1, C11.M1) and its per-breach step is the same handle_breach',
     'of the block-connection path, Watcher::handle_breaches is run for one breached locator with two appointments; filtered_block_connected / get_breaches themselves (locator map construction, cache update, deletion of the invalid ones) are only covered through lock/call order (C10.M1, C11.M1)')
+K('C06', 'P4.isolation_both_garbled', 'teos', _w + 'c06_handle_breaches_both_garbled', 'two users share a breached locator, both blobs garbled: two decryptions, each with that appointment\'s own blob; both reported invalid; nothing sent', 'thorough')
